@@ -114,6 +114,18 @@ func c02Unit(name string, lvl int) core.Unit {
 			rng eco.Rng
 			ok  bool
 		}
+		// Two phases: every range of the unit is parsed first and evaluated afterwards, so that
+		// range values that share hidden state (a parser scratch buffer, a cache) interfere.
+		type job struct {
+			rr       eco.Rng
+			rangeStr string
+			want     func(v eco.Ver) (bool, bool)
+			probes   []int
+			kind     string
+			parts    []string
+		}
+		var jobs []job
+		var evaluate func(j job)
 		check := func(rangeStr string, want func(v eco.Ver) (bool, bool), probes []int, kind string, parts []string) {
 			rr, err := eco.SafeParseRange(e, rangeStr)
 			r.Add("range_parses", 1)
@@ -122,6 +134,21 @@ func c02Unit(name string, lvl int) core.Unit {
 					Inputs: append([]string{rangeStr}, parts...), Expected: "range parses", Got: "error: " + err.Error()})
 				return
 			}
+			jobs = append(jobs, job{rr, rangeStr, want, probes, kind, parts})
+			if len(jobs) >= 20000 {
+				for _, j := range jobs {
+					evaluate(j)
+				}
+				jobs = jobs[:0]
+			}
+		}
+		defer func() {
+			for _, j := range jobs {
+				evaluate(j)
+			}
+		}()
+		evaluate = func(j job) {
+			rr, rangeStr, want, probes, kind, parts := j.rr, j.rangeStr, j.want, j.probes, j.kind, j.parts
 			for _, vi := range probes {
 				w, ok := want(u.Vers[vi])
 				if !ok {
